@@ -464,3 +464,18 @@ package file
 //@   callee Errorf(f, a) (e)
 //@     pure
 //@     ensures e != nil
+
+// ---------------------------------------------------------------------------
+// C03: sourceIDByStat.  Jobs and saved offsets are keyed by this id.  For a file
+// seen without a symlink the id is the inode plus the low 32 bits of inode*K: the
+// inode itself is never folded (only the hash part is masked), so the id is at least
+// the inode and less than inode + 2^32.  (That this is not injective for inodes
+// 2^31 apart is an OPEN finding, recorded by input; the contract pins the formula.)
+
+//@ func sourceIDByStat
+//@   option mode bv64
+//@   ensures result - inode == (symHash & 4294967295)
+//@   callee Sys() (r)
+//@     pure
+//@     ensures typeis(r, "*syscall.Stat_t") && !isnil(r)
+//@   loop 1 invariant true
